@@ -333,8 +333,14 @@ def check(prop, tier):
                 other.setdefault(("C10", c["sig"]), (job, c["seed"], c["msg"], True))
 
     n_viol, machinery_broken, lines_out = 0, False, []
+    seen_sigs = set()
     for (p, sig), (job, seed, msg, is_crash) in sorted(found.items(), key=lambda kv: kv[0]):
         exe = exes[job["variant"]]
+        if sum(1 for l in lines_out if l.startswith(("VIOLATION", "KNOWN-FINDING"))) >= 10 and (p, sig) not in known:
+            # one broken mechanism can show under dozens of signatures; ten minimised replays are enough to act on
+            more = sum(1 for k in found if k not in known) - 10
+            lines_out.append("NOTE: %d further distinct signature(s) of %s were seen and not minimised, e.g. %s (seed %s)" % (more, prop, sig, seed))
+            break
         if seed is None:
             lines_out.append("MACHINERY-ERROR: worker died outside a run (%s): %s" % (sig, msg)); machinery_broken = True; continue
         text = gen_plan(exe, job, seed)
@@ -345,6 +351,17 @@ def check(prop, tier):
         r2 = replay_text(exe, text, only=None if is_crash else p, job=job)
         ok1 = (r1[2] is not None and r1[2][0] == sig) if is_crash else ((p, sig) in r1[0])
         ok2 = (r2[2] is not None and r2[2][0] == sig) if is_crash else ((p, sig) in r2[0])
+        if is_crash and not (ok1 and ok2) and job["variant"] == "rel" and not job.get("valgrind"):
+            # a memory error on the release build shows up (or not) depending on the heap history of the worker; the
+            # sanitizer build decides it deterministically: replay the same plan there and report what it says
+            sexe = build("san")
+            s1, s2 = replay_text(sexe, text), replay_text(sexe, text)
+            if s1[2] is not None and s2[2] is not None and s1[2][0] == s2[2][0]:
+                job = dict(job, variant="san"); exe = sexe
+                sig, msg = s1[2][0], s1[2][1] + " (first seen as a non-reproducible %s on the release build)" % sig
+                if (p, sig) in seen_sigs: continue
+                ok1 = ok2 = True; r1, r2 = s1, s2
+        seen_sigs.add((p, sig))
         if not (ok1 and ok2 and r1[1] == r2[1]):
             lines_out.append("MACHINERY-ERROR: seed %d signature %s/%s did not reproduce in a fresh process (%s / %s)" % (seed, p, sig, r1[0] or r1[2], r2[0] or r2[2]))
             machinery_broken = True
